@@ -787,6 +787,8 @@ class Container:
                 raise ValueError(f"Not enough mixture left in source container ({source_container.name}). " +
                                  f"Only {Unit.convert_from_storage(source_container.volume, 'mL')} mL available, " +
                                  f"{Unit.convert_from_storage(volume_to_transfer, 'mL')} mL needed.")
+            if source_container.volume == 0:
+                raise ValueError(f"There is no volume in the source container ({source_container.name}).")
             requested, available = volume_to_transfer, source_container.volume
             ratio = volume_to_transfer / source_container.volume
 
@@ -796,12 +798,16 @@ class Container:
             for substance, amount in source_container.contents.items():
                 source_unit = 'U' if substance.is_enzyme() else config.moles_storage_unit
                 total_mass += Unit.convert_from(substance, amount, source_unit, "g")
+            if total_mass == 0:
+                raise ValueError(f"There is no mass in the source container ({source_container.name}).")
             requested, available = mass_to_transfer, total_mass
             ratio = mass_to_transfer / total_mass
         elif unit == 'mol':
             moles_to_transfer = Unit.convert_to_storage(quantity_to_transfer, 'mol')
             total_moles = sum(amount for substance, amount in source_container.contents.items()
                               if not substance.is_enzyme())
+            if total_moles == 0:
+                raise ValueError(f"There are no moles in the source container ({source_container.name}).")
             requested, available = moles_to_transfer, total_moles
             ratio = moles_to_transfer / total_moles
         elif unit == 'U':
